@@ -136,6 +136,26 @@ def run(ctx):
     else:
         progs = [spine.gen_program(rng, negloops=rng.choice([0.0, 0.3, 0.6, 0.9]), max_level=rng.choice([1, 2, 2])) for _ in range(n)]
         progs += [gen_prop_loops(rng) for _ in range(ctx.budget(400, 6000))]
+    # pinned regression corpus: must-reject programs inside the region of known finding C02-missed-negative-cycle that the
+    # tree rejected when the corpus was built (tools/gen_c02_corpus.py); an answer here is a regression, never "known"
+    import json
+    import os
+    from lib import VERIF
+    cpath = os.path.join(VERIF, "corpus", "C02", "must_reject.json")
+    if os.path.exists(cpath) and not ctx.replay_in:
+        corpus = json.load(open(cpath))
+        cres = pmap(_work, corpus)
+        nrej = 0
+        for src, r in zip(corpus, cres):
+            ctx.case("corpus:" + src, nontrivial=True)
+            if r[0] == "ok":
+                ctx.fail("corpus program with a cycle through negation is now ANSWERED %s (it was rejected when the corpus was "
+                         "built) | program: %s" % (r[1], src.replace("\n", " ")), {"src": src, "corpus": True},
+                         {"kind": "corpus-regression"})
+                break
+            elif r[1][1] != "Timeout":
+                nrej += 1
+        ctx.count("corpus must-reject programs still rejected", nrej)
     sems = semcheck.spec_batch(drv, progs)
     runs = pmap(_work, [spine.to_src(P) for P in progs])
     nshrunk = 0
